@@ -1,8 +1,6 @@
 CONSTANTS
-  MaxSteps = 200000
-  CrashOnly = FALSE
+  SuffixUsesStaleLine = FALSE
+  PropertyOnly = FALSE
 SPECIFICATION Spec
-INVARIANT Inv
-CONSTRAINT Track
 POSTCONDITION Accepted
 CHECK_DEADLOCK FALSE
